@@ -195,7 +195,7 @@ func runC04(t *testing.T, tape *sim.Tape, tier string) *Outcome {
 func init() {
 	register(&Check{
 		ID: "C04", Bubble: true, Run: runC04,
-		Runs:   map[string]int{"quick": 6000, "thorough": 400000},
+		Runs:   map[string]int{"quick": 40000, "thorough": 1500000},
 		Rule:   "a case is one (client value stream, handler-result plan, delivery schedule) triple: client values of every RESP type incl. odd command arrays and hostile bytes; per handler call an injected result (hostile status/error text, arbitrary value tree, nil, error, message+error, floats incl. Inf/NaN); distinct = distinct (shape, chunking, stream hash) signatures; non-trivial = handler faults enabled or chunked delivery",
 		Real:   []string{"redis.Server connection loop, dispatch, executors, error construction, redis/proto serializer"},
 		Stub:   []string{"transport: simulated net.Conn", "handler: double returning injected results built with the public constructors"},
